@@ -42,17 +42,35 @@ Definition set_args (e : expr) (a : option (list expr)) : expr :=
   mkExpr (e_left e) (e_arithmetic_op e) (e_logical_op e) (e_op e) (e_right e) (e_minus e) (e_field e) (e_function e) a (e_val e).
 
 (* impl Display for Expr.  Field/Function Display = Debug = the variant name. *)
+Definition arith_symbol (a : ArithmeticOp) : str :=
+  match a with AAdd => s " + " | ASubtract => s " - " | AMultiply => s " * " | ADivide => s " / " | AModulo => s " % " end.
+
+(* impl Display for Expr: the per-row cache key, the JSON key and the GROUP BY key.  It prints the whole
+   expression: function arguments after the first, arithmetic operators, and a bracket pair around
+   every arithmetic node. *)
 Fixpoint display (e : expr) : str :=
   match e with
-  | mkExpr l _ _ _ r m fd fn _ v =>
+  | mkExpr l a _ _ r m fd fn args v =>
       (if m then [45] else [])
       ++ (match fn with
-          | Some f => Function_name f ++ [40] ++ (match l with Some x => display x | None => [] end) ++ [41]
-          | None => match l with Some x => display x | None => [] end
+          | Some f =>
+              Function_name f ++ [40] ++ (match l with Some x => display x | None => [] end)
+              ++ (match args with Some ar => flat_map (fun x => [44; 32] ++ display x) ar | None => [] end) ++ [41]
+              ++ (match fd with Some f => Field_name f | None => [] end)
+              ++ (match v with Some x => x | None => [] end)
+              ++ (match r with Some x => display x | None => [] end)
+          | None =>
+              match a with
+              | Some op =>
+                  [40] ++ (match l with Some x => display x | None => [] end) ++ arith_symbol op
+                  ++ (match r with Some x => display x | None => [] end) ++ [41]
+              | None =>
+                  (match l with Some x => display x | None => [] end)
+                  ++ (match fd with Some f => Field_name f | None => [] end)
+                  ++ (match v with Some x => x | None => [] end)
+                  ++ (match r with Some x => display x | None => [] end)
+              end
           end)
-      ++ (match fd with Some f => Field_name f | None => [] end)
-      ++ (match v with Some x => x | None => [] end)
-      ++ (match r with Some x => display x | None => [] end)
   end.
 
 (* Parser::negate_expr_op *)
